@@ -26,9 +26,10 @@ pub fn strategy_for(tier: Tier) -> BoxedStrategy<Case> {
         Tier::Quick => 4_000u32..12_000,
         Tier::Thorough => 20_000u32..60_000,
     };
-    (1u32..=16, total, any::<bool>(), any::<bool>(), any::<bool>(), fmt_strategy(), vec(claims_strategy(ClaimCfg::SHORT_F64), 1..4), prop_oneof![3 => Just(sdjwt_model::keys::Alg::HS256), 2 => Just(sdjwt_model::keys::Alg::EdDSA), 1 => Just(sdjwt_model::keys::Alg::ES256)])
-        .prop_map(|(threads, total, shared_issuer, same_claims, decoys, fmt, claims, alg)| C14Case {
+    (1u32..=16, total, any::<bool>(), any::<bool>(), any::<bool>(), fmt_strategy(), vec(claims_strategy(ClaimCfg::SHORT_F64), 1..4), prop_oneof![3 => Just(sdjwt_model::keys::Alg::HS256), 2 => Just(sdjwt_model::keys::Alg::EdDSA), 1 => Just(sdjwt_model::keys::Alg::ES256)], any::<bool>())
+        .prop_map(|(threads, total, shared_issuer, same_claims, decoys, fmt, claims, alg, alternate_format)| C14Case {
             alg,
+            alternate_format,
             threads,
             per_thread: (total / threads).max(100),
             shared_issuer,
